@@ -71,8 +71,8 @@ def make_replay(pid, ob, root, repo, tier):
     # R1/R2: direct replay of the counter-model, where the bundle provides it
     bundle = getattr(ob, 'bundle', None)
     script = 'native/replay_%s.py' % bundle
-    if bundle and os.path.exists(os.path.join(VERIF, script)) and ob.result.get('model') is not None:
-        code, out, err = native(script, [json.dumps({'obligation': ob.name, 'model': ob.result['model'], 'meta': ob.meta}, default=str)], root, 120)
+    if bundle and os.path.exists(os.path.join(VERIF, script)) and (ob.result.get('model') is not None or ob.meta):
+        code, out, err = native(script, [json.dumps({'obligation': ob.name, 'model': ob.result.get('model'), 'meta': ob.meta}, default=str)], root, 300)
         try:
             r = json.loads(out.strip().split('\n')[-1])
             rep['native'] = r
